@@ -37,7 +37,9 @@ structure Parsed where
   req : Req
 
 def parse (line : String) : Option Parsed :=
-  match tokens line with
+  match (match tokens line with | "reqh" :: rest => "req" :: rest.dropLast | t => t) with
+  -- "reqh … <k>": the same request with extra headers (set k of the harness' pool); the decision
+  -- function does not take them: `Req` has the Authorization value and the query token only
   | ["req", tok, fl, method, path, auth, hasq, qt] =>
     match bytesOfHex tok, parseFlags fl, bytesOfHex path, bytesOfHex auth, bytesOfHex qt with
     | some t, some f, some p, some a, some q =>
